@@ -186,7 +186,10 @@ Definition parse_css_legend (s : list Z) : option (list (list Z * list Z)) :=
   | Some s1 => match p_tag LEGEND (p_space s1) with
                | Some s2 => match p_new_line (p_space s2) with
                             | Some s3 => Some (p_css_style_list s3)
-                            | None => None
+                            | None => match p_space s2 with      (* new_line() | end() *)
+                                      | [] => Some []
+                                      | _ => None
+                                      end
                             end
                | None => None
                end
